@@ -21,7 +21,7 @@ ASSUMPTIONS = [
     "position-wise the agent's answers (no binding attributed to another requested OID)",
     "an added binding is for a further, different OID (a duplicate of a requested OID collapses in multiset's dict by design)",
 ]
-PROBES = ["get_missing", "getnext_end_of_view", "multigetnext_with_eom", "bulk_maxrep_0", "bulk_empty", "set_normalised",
+PROBES = ["repeated_with_same_argument_objects", "get_missing", "getnext_end_of_view", "multigetnext_with_eom", "bulk_maxrep_0", "bulk_empty", "set_normalised",
           "fault_add_binding", "fault_drop_binding", "fault_overlong_bulk", "fault_short_bulk", "v1", "v3_priv", "dup_oids",
           "usmstats_objects_v3"]
 shrink_lists = [("ops",), ("mib",)]
@@ -49,6 +49,13 @@ def plan_for(tier: str, seed: int, i: int) -> dict:
             mib[(1, 3, 6, 1, 6, 3, 15, 1, 1, k, 0)] = ("c32", rng.randrange(0, 50))
     keys = sorted(mib)
     ops = [scen.gen_simple_op(rng, keys, proto["version"]) for _ in range(rng.randrange(3, 11))]
+    # a poller repeats calls with the very same argument objects (the harness hands the same lists/dict to the client for
+    # identical operations of one plan): the answer to the repetition is judged like the first
+    rrng = rng_for(seed, ID, tier + ":repeat", i)
+    if rrng.random() < 0.3:
+        for _ in range(rrng.randrange(1, 3)):
+            src = rrng.randrange(len(ops))
+            ops.insert(rrng.randrange(src + 1, len(ops) + 1), dict(ops[src]))
     fault = None
     if rng.random() < 0.4:
         fault = {"kind": rng.choice(FAULTS), "op_index": rng.randrange(0, len(ops)), "pos": rng.randrange(0, 8)}
@@ -126,13 +133,18 @@ def execute(plan: dict) -> dict:
         if violation is None:
             violation = {"clause": clause, "detail": "op#%d %s: %s" % (k, _op_str(plan["ops"][k]), d)}
 
+    arg_objects: Dict[Any, Any] = {}
+    seen_ops: List[str] = []
     for k, op in enumerate(plan["ops"]):
         state["op"] = k
         before = len(agent.requests)
         res = exc = None
+        if repr(op) in seen_ops and op["op"] in ("multiget", "multigetnext", "multiset", "bulkget"):
+            probes["repeated_with_same_argument_objects"] = 1
+        seen_ops.append(repr(op))
 
         async def one() -> Any:
-            return await scen.do_op(client, op)
+            return await scen.do_op(client, op, arg_objects)
         try:
             res = w.run(one())
         except Exception as e:  # noqa: BLE001
